@@ -9,6 +9,8 @@ that the walk visits exactly the files (tie on generated trees), go-pathspec pat
 cycles, OS errors, the before/after order of run and record start/stop.
 -/
 import InToto.Proofs.Record
+import InToto.Generated.Facts
+import InToto.Model.SchemaFacts
 
 namespace InToto.C13
 open InToto InToto.Record InToto.RecordProofs
@@ -66,5 +68,13 @@ theorem match_products_exact (products local_ : ArtMap) (n : Str) :
 
 /-- example: CR LF CR x LF CR CR LF ↦ LF LF x LF LF LF -/
 theorem normalize_example : normalize [0x0D, 0x0A, 0x0D, 0x78, 0x0A, 0x0D, 0x0D, 0x0A] = [0x0A, 0x0A, 0x78, 0x0A, 0x0A, 0x0A] := by decide
+
+/-- fact regenerated from the source on every run: the supported hash algorithm names -/
+theorem facts_hash_names : Generated.hashNames = SchemaFacts.expHashNames ∧
+    ∀ a, a ∈ supportedAlgs ↔ a ∈ SchemaFacts.expHashNames := by
+  refine ⟨by decide, ?_⟩
+  intro a
+  simp [supportedAlgs, SchemaFacts.expHashNames]
+  constructor <;> intro h <;> rcases h with h | h | h <;> simp [h]
 
 end InToto.C13
